@@ -139,25 +139,46 @@ fn is_desc(m: &BTreeMap<usize, MNode>, anc: usize, i: usize) -> bool {
 pub fn build_plain<const K: usize>(rng: &mut Rng, shape: &Shape, scramble: bool) -> Tree<u32, K> {
     let mut t = Tree::<u32, K>::new();
     let mut counter = 100u32;
-    let r = t.add_root(counter);
-    fn rec<const K: usize>(t: &mut Tree<u32, K>, at: usize, s: &Shape, rng: &mut Rng, scramble: bool, counter: &mut u32) {
-        if let Shape::Dec(cs) = s {
-            let order: Vec<usize> = if scramble && rng.chance(1, 2) { (0..cs.len()).rev().collect() } else { (0..cs.len()).collect() };
-            for l in order {
-                if let Some(c) = &cs[l] {
-                    if scramble && rng.chance(1, 3) {
-                        let tmp = t.add_child_node(at, l, 7).unwrap();
-                        t.add_child_node(tmp, 0, 8).unwrap();
-                        t.remove_child(at, l);
-                    }
-                    *counter += 1;
-                    let idx = t.add_child_node(at, l, *counter).unwrap();
-                    rec(t, idx, c, rng, scramble, counter);
+    let root = t.add_root(counter);
+    // random parent-before-child insertion order with decoy nodes (see gen::build)
+    let mut pending: Vec<(usize, usize, Shape, bool)> = vec![];
+    let mut decoys: Vec<(usize, usize, Shape)> = vec![];
+    if let Shape::Dec(cs) = shape {
+        for (l, c) in cs.iter().enumerate() {
+            if let Some(c) = c {
+                pending.push((root, l, c.clone(), true));
+            }
+        }
+    }
+    while !pending.is_empty() || !decoys.is_empty() {
+        let undo = !decoys.is_empty() && (pending.is_empty() || rng.chance(1, 3));
+        if undo {
+            let k = rng.below(decoys.len());
+            let (p, l, sh) = decoys.swap_remove(k);
+            t.remove_child(p, l);
+            pending.push((p, l, sh, false));
+            continue;
+        }
+        let k = if scramble { rng.below(pending.len()) } else { 0 };
+        let (p, l, sh, may_decoy) = pending.remove(k);
+        if scramble && may_decoy && rng.chance(1, 3) {
+            let tmp = t.add_child_node(p, l, 7).unwrap();
+            if rng.chance(1, 2) {
+                t.add_child_node(tmp, rng.below(K), 8).unwrap();
+            }
+            decoys.push((p, l, sh));
+            continue;
+        }
+        counter += 1;
+        let idx = t.add_child_node(p, l, counter).unwrap();
+        if let Shape::Dec(cs) = &sh {
+            for (cl, c) in cs.iter().enumerate() {
+                if let Some(c) = c {
+                    pending.push((idx, cl, c.clone(), true));
                 }
             }
         }
     }
-    rec(&mut t, r, shape, rng, scramble, &mut counter);
     t
 }
 
